@@ -636,6 +636,7 @@ func c06Scenarios(tier string) []*ConcScenario {
 		{P(0, 3)},
 		{R(1)},
 		{P(0, 3), opF},
+		{P(4, 3), opF, P(0, 3), opF},
 	}
 	cfgs := []Config{cfg("mh", false, 8, 1, 1)}
 	bound := 2
@@ -1148,6 +1149,45 @@ func runC17Seq(t *testing.T, c *Collector) {
 				w.Close()
 			}
 			_ = good
+		})
+	}
+	// a successful re-bucketing reopen followed by Close leaves nothing open
+	for _, nb := range []uint8{12, 8, 9} {
+		nb := nb
+		synctest.Test(t, func(t *testing.T) {
+			c.res.Evaluations++
+			w, err := NewWorld(cfg("mh", false, 16, 48, 48))
+			if err != nil {
+				c.res.InfraError = err.Error()
+				return
+			}
+			w.FS.TrackSites(true)
+			for _, op := range []Op{P(0, 1), P(1, 2), opF, P(4, 1), opF, P(3, 1), opF, {Kind: OpRebits, A: int(nb)}, P(2, 1), opF} {
+				c.res.Transitions++
+				if v := w.Step(op); v != nil {
+					w.Close()
+					return
+				}
+			}
+			if err := w.Close(); err != nil {
+				return
+			}
+			synctest.Wait()
+			_, open := w.FS.HandleCount()
+			g := storeGoroutines()
+			if open != 0 || len(g) != 0 {
+				v := viol("handle:leaked", "after reopening with %d instead of 16 index bits and Close: %d descriptor(s) open %v, goroutines %v", nb, open, w.FS.OpenHandles(), g)
+				if open == 0 {
+					v.Symptom = "goroutine-outlives-close"
+				}
+				v.Property, v.Oracle, v.Trigger = "C17", "resources", "close-after-rebucketing"
+				v.History = fmt.Sprintf("Put...; Flush x3; Close; reopen with %d bits; Put; Flush; Close", nb)
+				v.Replay = map[string]any{"engine": "S-open", "case": "rebucket", "bits": nb}
+				c.violation(v, 0)
+				return
+			}
+			c.stateKey(fmt.Sprintf("rebucket-%d", nb))
+			c.count("nontrivial", 1)
 		})
 	}
 	// repetition: open / ops / close cycles must not accumulate anything
